@@ -59,3 +59,202 @@ Proof.
   apply andb_prop in H; destruct H as [H Hr]. apply andb_prop in H; destruct H as [Hij _].
   apply N.eqb_eq in Hij. rewrite Hij. f_equal. apply IH; exact Hr.
 Qed.
+
+(* ===================== C10 / C05 / C11 at token level ===================== *)
+From PF.proofs Require Import Tail.
+Local Arguments N.pow : simpl never.
+Local Arguments N.ltb : simpl never.
+Local Arguments N.leb : simpl never.
+Local Arguments N.eqb : simpl never.
+Local Arguments N.of_nat : simpl never.
+
+(* every body step of a run satisfies the envelope in some state *)
+Lemma body_ok_each : forall c steps s, body_ok c s steps = true ->
+  forall st, In st steps -> exists s', emitsb c s' (rs_chosen st) (rs_tok st) = true
+                                     /\ out_ok c (rs_tok st) (rs_out st) = true.
+Proof.
+  intros c steps. induction steps as [|x steps IH]; simpl; intros s Hb st Hin; [destruct Hin|].
+  apply andb_prop in Hb; destruct Hb as [Hb Hrest]. apply andb_prop in Hb; destruct Hb as [He Ho].
+  destruct Hin as [-> |Hin]; [exists s; split; assumption | eapply IH; eassumption].
+Qed.
+
+Lemma tokens_cases : forall c framed steps t, In t (run_tokens c framed steps) ->
+  (v_lt2 (c_version c) = false /\ t = (PROTO, AU (vnum (c_version c))))
+  \/ (framed = true /\ fst t = FRAME)
+  \/ (exists st, In st steps /\ t = rs_out st)
+  \/ (exists o, In o (fst (cleanup_for_stop (c_version c)
+                  (run_steps (c_version c) (s_start c) (map rs_tok steps)))) /\ t = (o, A0))
+  \/ t = (STOP, A0).
+Proof.
+  intros c framed steps t. unfold run_tokens. cbv zeta. unfold header. rewrite !in_app_iff.
+  intros [[H|H]|[H|[H|H]]].
+  - destruct (v_lt2 (c_version c)); [destruct H|]. destruct H as [<-|[]]. left; auto.
+  - destruct framed; [|destruct H]. destruct H as [<-|[]]. right; left; auto.
+  - apply in_map_iff in H. destruct H as (st & <- & Hin). right; right; left. exists st; auto.
+  - apply in_map_iff in H. destruct H as (o & <- & Hin). right; right; right; left. exists o; auto.
+  - destruct H as [<-|[]]. right; right; right; right; reflexivity.
+Qed.
+
+Lemma typeconf_repl_ops : forall t, typeconf_repl t = true ->
+  In (fst t) [BININT; BINFLOAT; SHORT_BINUNICODE; SHORT_BINBYTES; EMPTY_LIST; EMPTY_DICT; EMPTY_TUPLE;
+              NONE; NEWTRUE; NEWFALSE].
+Proof. intros [o a] H; destruct o; try discriminate H; simpl; tauto. Qed.
+
+Lemma emitsb_chosen : forall c s ch t, emitsb c s ch t = true ->
+  can_emit c s ch = true /\ In ch (row (c_version c))
+  /\ (fst t = ch \/ (int_like (fst t) = true /\ In (fst t) (row (c_version c))))
+  /\ arg_env c s (fst t) (snd t) = true.
+Proof.
+  intros c s ch t H. unfold emitsb in H.
+  apply andb_prop in H; destruct H as [H Harg]. apply andb_prop in H; destruct H as [Hv Hop].
+  apply existsb_exists in Hv. destruct Hv as (x & Hin & Hx). apply op_eqb_eq in Hx; subst x.
+  unfold get_valid_opcodes in Hin. apply filter_In in Hin. destruct Hin as [Hrow Hce].
+  split; [exact Hce|]. split; [exact Hrow|]. split; [|exact Harg].
+  apply orb_prop in Hop. destruct Hop as [Hop|Hop]; [left; apply op_eqb_eq; exact Hop|].
+  right. apply andb_prop in Hop; destruct Hop as [Hop Hex]. apply andb_prop in Hop; destruct Hop as [_ Hi].
+  split; [exact Hi|]. apply existsb_exists in Hex. destruct Hex as (x & Hin & Hx). apply op_eqb_eq in Hx; subst x. exact Hin.
+Qed.
+
+(* C10: no EXT* unless allow_ext, no buffer opcode unless allow_buffer - any configuration *)
+Lemma C10_R : forall c framed steps, run_R c framed steps ->
+  forall t, In t (run_tokens c framed steps) ->
+    (is_ext t = true -> c_ext c = true) /\ (is_buffer t = true -> c_buf c = true).
+Proof.
+  intros c framed steps (_ & _ & Hb) t Hin.
+  destruct (tokens_cases _ _ _ _ Hin) as [[_ ->]|[[_ Hf]|[(st & Hst & ->)|[(o & Ho & ->)| ->]]]].
+  - split; discriminate.
+  - unfold is_ext, is_buffer; rewrite Hf; split; discriminate.
+  - destruct (body_ok_each _ _ _ Hb st Hst) as (s' & He & Hout).
+    destruct (emitsb_chosen _ _ _ _ He) as (Hce & _ & Hop & _).
+    unfold out_ok in Hout. apply orb_prop in Hout. destruct Hout as [Hout|Hout].
+    + apply tok_eqb_eq in Hout. rewrite <- Hout.
+      destruct Hop as [Hop|[Hi _]].
+      * rewrite <- Hop in Hce. unfold is_ext, is_buffer.
+        destruct (fst (rs_tok st)); split; intro Hx; try discriminate Hx; simpl in Hce; try exact Hce;
+          apply andb_prop in Hce; tauto.
+      * unfold is_ext, is_buffer. destruct (fst (rs_tok st)); try discriminate Hi; split; discriminate.
+    + apply andb_prop in Hout; destruct Hout as [Hout _]. apply andb_prop in Hout; destruct Hout as [_ Hr].
+      apply typeconf_repl_ops in Hr. unfold is_ext, is_buffer.
+      simpl in Hr. repeat (destruct Hr as [<-|Hr]; [split; discriminate|]). destruct Hr.
+  - destruct (cleanup_facts (c_version c) (run_steps (c_version c) (s_start c) (map rs_tok steps))) as [_ Hops].
+    destruct (Hops o Ho) as [-> |[-> |[[_ ->]|[_ [-> | ->]]]]]; split; discriminate.
+  - split; discriminate.
+Qed.
+
+(* C05 (token part): every opcode belongs to the protocol; PROTO exactly as the header *)
+Lemma row_proto_ok : forall v o, In o (row v) -> (ref_proto o <=? vnum v)%N = true.
+Proof.
+  intros v o H.
+  assert (E : forallb (fun o => (ref_proto o <=? vnum v)%N) (row v) = true) by (destruct v; vm_compute; reflexivity).
+  rewrite forallb_forall in E. apply E; exact H.
+Qed.
+
+Lemma arg_env_not_header : forall c s o a, arg_env c s o a = true -> o <> PROTO /\ o <> FRAME /\ o <> STOP.
+Proof. intros c s o a H; destruct o; repeat split; try discriminate; destruct a; discriminate H. Qed.
+
+Lemma C05_R : forall c framed steps, safeb c = true -> run_R c framed steps ->
+  let ts := run_tokens c framed steps in
+  forallb (fun t => (ref_proto (fst t) <=? vnum (c_version c))%N) ts = true
+  /\ header_ok (c_version c) ts = true.
+Proof.
+  intros c framed steps Hs HR. pose proof HR as (Hfr & _ & Hb). cbv zeta.
+  assert (Hbody : forall st, In st steps ->
+            (ref_proto (fst (rs_out st)) <=? vnum (c_version c))%N = true /\ is_proto (rs_out st) = false).
+  { intros st Hst. destruct (body_ok_each _ _ _ Hb st Hst) as (s' & He & Hout).
+    rewrite (out_ok_safe _ _ _ Hs Hout).
+    destruct (emitsb_chosen _ _ _ _ He) as (_ & Hrow & Hop & Harg).
+    destruct (arg_env_not_header _ _ _ _ Harg) as (Hnp & _).
+    split.
+    - destruct Hop as [Hop|[_ Hin]]; [rewrite Hop|]; apply row_proto_ok; assumption.
+    - unfold is_proto. apply op_eqb_neq. exact Hnp. }
+  assert (Htail : forall o, In o (fst (cleanup_for_stop (c_version c)
+                    (run_steps (c_version c) (s_start c) (map rs_tok steps)))) ->
+            (ref_proto o <=? vnum (c_version c))%N = true /\ op_eqb o PROTO = false).
+  { intros o Ho.
+    destruct (cleanup_facts (c_version c) (run_steps (c_version c) (s_start c) (map rs_tok steps))) as [_ Hops].
+    destruct (Hops o Ho) as [-> |[-> |[[_ ->]|[Hv [-> | ->]]]]]; split; try reflexivity;
+      destruct (c_version c); try discriminate Hv; reflexivity. }
+  split.
+  - apply forallb_forall. intros t Hin.
+    destruct (tokens_cases _ _ _ _ Hin) as [[Hv ->]|[[Hf Ht]|[(st & Hst & ->)|[(o & Ho & ->)| ->]]]].
+    + destruct (c_version c); try discriminate Hv; reflexivity.
+    + rewrite Ht. specialize (Hfr Hf). destruct (c_version c); try discriminate Hfr; reflexivity.
+    + apply Hbody; exact Hst.
+    + apply Htail; exact Ho.
+    + destruct (c_version c); reflexivity.
+  - unfold run_tokens. cbv zeta. unfold header, header_ok.
+    change {| stk := []; memo := []; proto_emitted := negb (v_lt2 (c_version c)) |} with (s_start c).
+    assert (Hrest : forall l, (forall t, In t l -> is_proto t = false) -> existsb is_proto l = false).
+    { induction l as [|x l IH]; simpl; intro H; [reflexivity|]. rewrite (H x (or_introl eq_refl)). apply IH.
+      intros t Ht; apply H; right; exact Ht. }
+    assert (Hnp : forall t, In t (map rs_out steps ++ map (fun o => (o, A0))
+                     (fst (cleanup_for_stop (c_version c)
+                        (run_steps (c_version c) (s_start c) (map rs_tok steps)))) ++ [(STOP, A0)]) ->
+                  is_proto t = false).
+    { intros t Ht. rewrite !in_app_iff in Ht. destruct Ht as [Ht|[Ht|Ht]].
+      - apply in_map_iff in Ht. destruct Ht as (st & <- & Hst). apply Hbody; exact Hst.
+      - apply in_map_iff in Ht. destruct Ht as (o & <- & Ho). apply Htail; exact Ho.
+      - destruct Ht as [<-|[]]. reflexivity. }
+    destruct framed.
+    + specialize (Hfr eq_refl). destruct (v_lt2 (c_version c)) eqn:Hv.
+      * destruct (c_version c); discriminate.
+      * cbn [app]. rewrite N.eqb_refl. cbn [andb]. apply negb_true_iff. apply Hrest.
+        intros t Ht. destruct Ht as [Ht|Ht]; [subst t; reflexivity | apply Hnp; exact Ht].
+    + destruct (v_lt2 (c_version c)) eqn:Hv; cbn [app].
+      * apply negb_true_iff. apply Hrest. exact Hnp.
+      * rewrite N.eqb_refl. cbn [andb]. apply negb_true_iff. apply Hrest. exact Hnp.
+Qed.
+
+(* C11: the body contributes exactly one token per step, the tail at most 2T+1 *)
+Lemma pop_to_mark_len : forall st, length (pop_to_mark st) <= length st.
+Proof. induction st as [|k st IH]; simpl; [lia|]. destruct k; simpl; lia. Qed.
+
+Lemma dict_pop_len : forall st, length (dict_pop st) <= length st.
+Proof.
+  intro st. remember (length st) as n eqn:Hn. revert st Hn.
+  induction n as [n IH] using lt_wf_ind. intros st Hn.
+  destruct st as [|k st]; [simpl; lia|].
+  destruct st as [|k1 st].
+  - destruct k; simpl; lia.
+  - assert (H : length (dict_pop st) <= length st) by (apply (IH (length st)); [simpl in Hn; lia | reflexivity]).
+    destruct k; simpl in *; lia.
+Qed.
+
+Lemma sim_step_len : forall v s t, length (stk (sim_step v s t)) <= S (length (stk s)).
+Proof.
+  intros v [st m pe] [o a].
+  pose proof (pop_to_mark_len st) as Hp. pose proof (dict_pop_len st) as Hd.
+  destruct o; unfold sim_step; cbn [fst snd stk memo with_stk with_memo push];
+    try (simpl; lia);
+    try (destruct st as [|k0 [|k1 [|k2 st']]]; simpl; try lia;
+         repeat match goal with |- context [if ?b then _ else _] => destruct b end; simpl; lia).
+  - (* OBJ *) destruct st as [|k0 st']; [simpl; lia|]. destruct k0; simpl in *; lia.
+  - (* GET *) destruct (memo_get _ m); simpl; lia.
+  - destruct (memo_get _ m); simpl; lia.
+  - destruct (memo_get _ m); simpl; lia.
+Qed.
+
+Lemma run_steps_len : forall v ts s, length (stk (run_steps v s ts)) <= length ts + length (stk s).
+Proof.
+  induction ts as [|t ts IH]; simpl; intro s; [lia|].
+  specialize (IH (sim_step v s t)). pose proof (sim_step_len v s t). lia.
+Qed.
+
+Lemma C11_R : forall c framed steps, run_R c framed steps ->
+  exists hdr tail,
+    length (run_tokens c framed steps) = hdr + length steps + tail + 1
+    /\ hdr <= 2 /\ tail <= 2 * length steps + 1
+    /\ target_ok c (N.of_nat (length steps)) = true.
+Proof.
+  intros c framed steps (_ & HT & _).
+  unfold run_tokens. cbv zeta.
+  change {| stk := []; memo := []; proto_emitted := negb (v_lt2 (c_version c)) |} with (s_start c).
+  set (s1 := run_steps (c_version c) (s_start c) (map rs_tok steps)).
+  eexists (length (header c framed _)), (length (fst (cleanup_for_stop (c_version c) s1))).
+  split; [rewrite !app_length, !map_length; simpl; lia|].
+  split; [unfold header; destruct (v_lt2 (c_version c)); destruct framed; simpl; lia|].
+  split; [|exact HT].
+  destruct (cleanup_facts (c_version c) s1) as [Hlen _].
+  pose proof (run_steps_len (c_version c) (map rs_tok steps) (s_start c)) as Hl.
+  rewrite map_length in Hl. simpl in Hl. fold s1 in Hl. lia.
+Qed.
